@@ -659,13 +659,13 @@ func runCase(id int, cs *caseSpec, emit func(string)) error {
 		emit(fmt.Sprintf("TAB %s %s %s %d %s", ribTable(), fibTable(), stratTable(), table.CsCapacity(), facesTable(in)))
 		if strings.HasPrefix(ol, "OBS ctl 200 ") && len(final) > 3 && final[2].String() == "cs" && final[3].String() == "config" {
 			// the effect of an accepted cs/config, not its echo: the real Content Store (created at start-up) must now hold
-			// min(packets stored, configured capacity) entries after further insertions
-			size, stored, capacity := w.csProbe(12)
-			want := stored
+			// min(entries before + inserted, configured capacity) entries after further insertions
+			before, size, capacity := w.csProbe(12)
+			want := before + 12
 			if capacity < want {
 				want = capacity
 			}
-			emit(fmt.Sprintf("CSPROBE size=%d want=%d stored=%d capacity=%d", size, want, stored, capacity))
+			emit(fmt.Sprintf("CSPROBE size=%d want=%d before=%d capacity=%d", size, want, before, capacity))
 		}
 		if bad := lookupMismatches(); len(bad) > 0 {
 			emit("LPMBAD " + strings.Join(bad, "+"))
